@@ -2,7 +2,7 @@
 """Confirms a seeded change (patch + demonstration test) in a scratch worktree and
 runs the /verif checks against it through a build overlay (so /repo is untouched).
 
-usage: seedtest.py <dir-with change.diff+demo_test.go> [--checks C01,C02|all] [--tier quick]
+usage: seedtest.py <dir-with change.diff+demo_test.go> [--checks C01,C02|all] [--tier quick] [--no-confirm]
 Prints a JSON summary; exit 0 always (it is a measuring tool).
 
 Steps: scratch worktree of /repo HEAD -> (1) demo passes without the change,
@@ -55,8 +55,9 @@ def main():
             shutil.copy(os.path.join(d, f), os.path.join(wt, target, f))
         pkgs = sorted({"./" + t + "/" for _, t in demo_targets})
         runpat = "."
+        confirm = "--no-confirm" not in args  # rechecks of an already confirmed change skip steps 1-3
         # (1) demo without the change
-        if demos:
+        if demos and confirm:
             rc, out = sh(["go", "test", "-vet=off", "-count=1"] + pkgs, cwd=wt, env=ENVT)
             res["demo_passes_without_change"] = rc == 0
             if rc != 0:
@@ -68,12 +69,13 @@ def main():
             print(json.dumps(res, indent=1)); return
         for f, t in demo_targets:
             os.remove(os.path.join(wt, t, f))
-        rc, out = sh(["go", "test", "-vet=off", "-count=1", "./..."], cwd=wt, env=ENVT)
-        res["existing_suite_passes_with_change"] = rc == 0
-        if rc != 0:
-            res["suite_log"] = out[-1500:]
+        if confirm:
+            rc, out = sh(["go", "test", "-vet=off", "-count=1", "./..."], cwd=wt, env=ENVT)
+            res["existing_suite_passes_with_change"] = rc == 0
+            if rc != 0:
+                res["suite_log"] = out[-1500:]
         # (3) demo with the change
-        if demos:
+        if demos and confirm:
             for f, t in demo_targets:
                 shutil.copy(os.path.join(d, f), os.path.join(wt, t, f))
             rc, out = sh(["go", "test", "-vet=off", "-count=1"] + pkgs, cwd=wt, env=ENVT)
